@@ -64,6 +64,15 @@ CHECKS = {
    text="CJson.tla defines the canonical form of an object (members ordered by the code points of the NFC-normalised keys, only quotation mark and backslash escaped) and models the formatter's buffered, ordered member map; TLC checks FormatterIsCanonical for every insertion order of every key set (size <= 3, keys of length <= 2 over an 8-symbol alphabet with controls, space, '!', '\"', '\\', a decomposed accent). Every enumerated object is serialised by the real CanonicalFormatter in exactly that insertion order (custom Serialize) and through serde_json::Value, and compared byte for byte; a random driver (values to depth 4, full ASCII incl. controls, multi-byte characters, two member orders each, floats must be refused) is compared with the harness's independent canonicaliser.",
    note="Trusted: TLC; Unicode normalisation is modelled by one composition rule (e + U+0301), which is also the only one the independent canonicaliser knows; numbers are i64/u64.",
    technique="TLA+ definition + formatter model (TLC exhaustive) as oracle, replay of every case into the real formatter, randomized differential driver"),
+
+ "C13": dict(cat="model_checking", design="5 C13",
+   text="KeyTable.tla states which key tables must parse (every identifier is the digest of its key, identifiers pairwise distinct as bytes) and transcribes the deserialisation visitor; TLC checks them equal for tables of 1..4 keys, both sites and 9 mutations at every position. Every case is realised 5 times with real keys of all supported types/encodings (Ed25519 hex, RSA PEM, ECDSA PEM, ECDSA hex, old ECDSA key type) and parsed by the real schema types; accepted tables are re-serialised and re-parsed twice and their identifiers compared with the harness's independent digest; keys imported with parse_keypair are checked for identifier stability.",
+   note="Trusted: TLC; SHA-256 as injective; the harness's own canonical JSON for the oracle digest.",
+   technique="TLA+ model as oracle (TLC exhaustive) + replay of every case into serde deserialisation of Root / Targets"),
+ "C16": dict(cat="model_checking", design="5 C16",
+   text="Names.tla transcribes encode_filename and the delegated file name; TLC enumerates every role name up to length 3-4 over a 13-symbol alphabet of URL- and path-significant characters and checks PlainEntry. Every name goes through the public DelegatedTargets::filename (compared with the model, collision check over all names); names up to length 2-3 additionally through a full load() with a datastore (every requested URL, every datastore entry and the datastore's parent are inspected), Repository::cache and RepositoryEditor delegate_role/sign/write, for both consistent_snapshot settings; random names up to length 64.",
+   note="Trusted: TLC; the harness transport logs raw URLs; directory listings taken after each operation.",
+   technique="TLA+ model of name encoding (TLC exhaustive) + replay of every name through client, cache and editor with directory/URL observation"),
 }
 NA_REASON = "check not built yet in this round (planned, see DESIGN.md section 5); not claimed"
 
